@@ -90,7 +90,7 @@ func c06Scenario(r *vf.Run, t *testing.T, id string, rng *rand.Rand) {
 				gates = append(gates, g)
 				pl.Gate = g
 			}
-			e.H.Plans[tag] = pl
+			e.H.SetPlan(tag, pl)
 			out = append(out, simpleGet(e.P, uint32(2*i+1), tag)...)
 			led.Opened = append(led.Opened, uint32(2*i+1))
 		}
